@@ -294,7 +294,14 @@ func (r *Run) reportViolation(c *Case, key, what string, detail any) bool {
 
 // Parallel runs cases 0..n-1 on `workers` goroutines (or only the replayed case).
 // A panic on the case's own goroutine is reported as a violation with key "panic".
-func (r *Run) Parallel(n, workers int, fn func(c *Case)) {
+func (r *Run) Parallel(n, workers int, fn func(c *Case)) { r.ParallelRange(0, n, workers, fn) }
+
+// ParallelRange runs cases lo..lo+n-1 (for checks with several phases: each phase owns an index
+// range, so that a replayed case index selects exactly one phase).
+func (r *Run) ParallelRange(lo, n, workers int, fn func(c *Case)) {
+	if r.OnlyCase >= 0 && (r.OnlyCase < lo || r.OnlyCase >= lo+n) {
+		return
+	}
 	if workers < 1 {
 		workers = 1
 	}
@@ -328,7 +335,7 @@ func (r *Run) Parallel(n, workers int, fn func(c *Case)) {
 	if r.OnlyCase >= 0 {
 		idx <- r.OnlyCase
 	} else {
-		for i := 0; i < n; i++ {
+		for i := lo; i < lo+n; i++ {
 			idx <- i
 		}
 	}
